@@ -1497,7 +1497,12 @@ class BuiltinMixin:
         return out
 
     def m_Path_stat(self, st, p, args, kwargs):
-        return self.opaque_call(st, "Path.stat", [p], may_raise=("OSError",))
+        out = []
+        for s, r in self.opaque_call(st, "Path.stat", [p], may_raise=("OSError",)):
+            if not isinstance(r, Raised):
+                s.assume(U.is_ref(r.t))  # an os.stat_result object
+            out.append((s, r))
+        return out
 
     # ------------------------------------------------------------ probes / io
 
